@@ -197,6 +197,31 @@ def padic_steps(ctx, g):
             pushes = [bj for bj, t2 in b.calls("Vec::<T, A>::push") if strip(b.origin(t2["args"][0]))[0] == "local" and strip(b.origin(t2["args"][0]))[1] == root[1]]
             okp = any(b.dominates(bj, bi) for bj in pushes)
             ctx.require(okp, "T9-sorted-before-skip", b.name, "push(norm of rhs)", "the right-hand side's norm is part of the list", "the right-hand side's norm is not added to the list before the bound is computed", b.span_of(bi))
+    # the right-hand side enters with its LARGEST column norm (the bound must hold for every column of b), all columns 0..nr_columns; the
+    # ascending sort that makes skip(1) drop the smallest norm compares (a, b) in this order
+    bp = ("param", 2, b.debug.get(2, ""))
+    okmax = False
+    whym = "no maximum over the columns of b is pushed"
+    for bj, t2 in b.calls("Vec::<T, A>::push"):
+        v = norm(b.origin(t2["args"][1]), g)
+        for x in subterms(v):
+            if x[0] == "call" and x[1].split("::")[-1] in ("max_by", "min_by", "max", "min", "fold", "reduce") and contains(x, lambda y: y == ("field", bp, "nr_cols") or is_call(y, "nr_columns") and contains(y, lambda z: z == bp)):
+                last = x[1].split("::")[-1]
+                res = closure_result(ctx.facts, x[2][1], g) if len(x[2]) == 2 else None
+                asc = res is not None and is_call(res, "total_cmp") and [strip(y) for y in res[2]] == [("param", 2, strip(res[2][0])[2]), ("param", 3, strip(res[2][1])[2])] and strip(res[2][0])[1] == 2 and strip(res[2][1])[1] == 3
+                r_ = [range_of(b, y, g) for y in subterms(x) if y[0] == "agg" and y[1].endswith("ops::Range::Range")]
+                okr = any(rr is not None and rr[0] == ("int", 0) and not rr[2] for rr in r_)
+                okmax = last == "max_by" and asc and okr
+                whym = "the value pushed for b is %s%s over %s" % (last, "" if asc else " with a reversed comparison", "0..nr_columns" if okr else "another range")
+    ctx.ob("T9-rhs-largest-norm", b.name, "push(max over the columns of b)", "ok" if okmax else "violation",
+           "the right-hand side contributes its largest column norm" if okmax else
+           whym + ": with columns of very different size the bound is computed from a small one, p^steps is too small for rational reconstruction and solve returns wrong fractions")
+    oksort = False
+    for bj, t2 in b.calls("sort_by"):
+        res = closure_result(ctx.facts, b.origin(t2["args"][1]), g)
+        oksort = res is not None and is_call(res, "total_cmp") and strip(res[2][0])[:2] == ("param", 2) and strip(res[2][1])[:2] == ("param", 3)
+    ctx.ob("T9-rhs-largest-norm", b.name, "ascending sort", "ok" if oksort else "violation",
+           "the list is sorted ascending (a.total_cmp(b)), so skip(1) drops the smallest norm" if oksort else "the norm list is not sorted ascending by a.total_cmp(b): skip(1) does not drop the smallest norm")
 
 
 # ---------------------------------------------------------------- (1) T1 + T7
